@@ -4,7 +4,7 @@ from verif.core import Infra
 META = dict(
     technique="TLC exhaustive model check of Shutdown.tla (ShutdownWithContext: stop flag, listeners, Done, closeIdleConns scan with its idle test and Close as separate steps, open counter poll; Serve return; connection loop with first byte / handler / buffered write / flush / idle mark / stop check / unregister) incl. liveness + TLC trace validation of hook-recorded executions of the real Server (B2) + directed interleavings forced with blocking hooks + black-box comparison of what every client received",
     design_ref="DESIGN.md §4 C15",
-    text="The design (one TLA+ action per step of ShutdownWithContext / closeIdleConns / Serve / the serve loop) is model-checked exhaustively for 1-2 listeners (concurrent Serve calls of one Server, each with its accept->open window as a separate step) x 2 connections x 2 requests (single or pipelined; answered normally or through TimeoutError/TimeoutHandler, after which the idle stamp comes from a fresh ctx) x one Shutdown per serve cycle, with the Server object reused for further cycles (Serve again after Shutdown returned nil: stop flag reset, done re-created, connection identities recycled): when Shutdown returns nil the listeners are closed, Serve has returned, no connection is served, every started handler's response reached the connection (and none is ever dropped), Done is closed before the first closeIdleConns round in every cycle (s.done / s.doneClosed are modelled as the code keeps them), no connection with a request in progress is closed by closeIdleConns, and Shutdown terminates although idle keep-alive connections never send again (liveness under fairness of the server's own steps). TLC is also run on the design of the code as found and must produce the lost-response counterexample. Real executions (1-3 serve / shutdown cycles on one Server object; slow handlers, handlers waiting on Done, handlers that run until Done fires, idle keep-alive connections, pipelined pairs, CloseOnShutdown on/off, Shutdown at a random moment) are recorded at the hooks and replayed against the same spec with all invariants evaluated in every reconstructed state; three directed interleavings are forced (Shutdown called while an accept loop - of the first or of the second listener - holds a connection it has not yet counted in s.open, parked through the ConnState(StateNew) callback; a connection turning active between closeIdleConns' idle test and its Close; closeIdleConns running while a response is buffered behind a pipelined request); after Shutdown returns nil the harness checks in every cycle that every Serve call returned, no handler started after the return, listener closed, no handler running, Done closed, idle connections closed, and that every request whose handler started was answered at the client.",
+    text="The design (one TLA+ action per step of ShutdownWithContext / closeIdleConns / Serve / the serve loop) is model-checked exhaustively for 1-2 listeners (concurrent Serve calls of one Server, each with its accept->open window as a separate step) x 2 connections x 2 requests (single or pipelined; answered normally or through TimeoutError/TimeoutHandler, after which the idle stamp comes from a fresh ctx) x one Shutdown per serve cycle, with the Server object reused for further cycles (Serve again after Shutdown returned nil: stop flag reset, done re-created, connection identities recycled): when Shutdown returns nil the listeners are closed, Serve has returned, no connection is served, every started handler's response reached the connection (and none is ever dropped), Done is closed before the first closeIdleConns round in every cycle (s.done / s.doneClosed are modelled as the code keeps them), no connection with a request in progress is closed by closeIdleConns, and Shutdown terminates although idle keep-alive connections never send again (liveness under fairness of the server's own steps). TLC is also run on the design of the code as found and must produce the lost-response counterexample. Real executions (1-3 serve / shutdown cycles on one Server object; slow handlers, handlers waiting on Done, handlers that run until Done fires, idle keep-alive connections, pipelined pairs, CloseOnShutdown on/off, ReduceMemoryUsage on/off, Shutdown at a random moment) are recorded at the hooks and replayed against the same spec with all invariants evaluated in every reconstructed state; three directed interleavings are forced (Shutdown called while an accept loop - of the first or of the second listener - holds a connection it has not yet counted in s.open, parked through the ConnState(StateNew) callback; a connection turning active between closeIdleConns' idle test and its Close; closeIdleConns running while a response is buffered behind a pipelined request); after Shutdown returns nil the harness checks in every cycle that every Serve call returned, no handler started after the return, listener closed, no handler running, Done closed, idle connections closed, and that every request whose handler started was answered at the client.",
     note="Trusted: hook placement (register / unregister / closeIdleConns steps under idleConnsMu; a Close is logged before it takes effect, counter decrements before, increments after), TLC, Go runtime. TimeoutHandler / hijack handlers (excepted by the property) are not used by the drivers. A freshly accepted connection that never sends a byte counts as idle only 5 s after the accept (as in net/http), so Shutdown may wait that long for it; the drivers' clients send at once. Real-code schedules are sampled plus the three forced interleavings. 'Idle keep-alive connections are closed rather than waited for' is judged on the recorded closeIdleConns steps (every connection a round found idle - a stamp not in the future, whatever request left it - and left open must be matched by a later first-byte step of its loop; unmatched skips at the end of the execution are a violation), never on elapsed time; clients only bound their waiting by counting scan rounds. A separate direct scenario calls Shutdown on a Server used only through ServeConn (no listener): it returns nil at once with a handler running; this is recorded as known finding F-C15-1.",
 )
 
@@ -12,12 +12,13 @@ META = dict(
 def run(ctx):
     # EagerFirst=FALSE: the loop waits for the first byte of every request (the code as it is now);
     # TRUE: a new connection turns active at once (the configuration before the C14 repair)
-    base = dict(CONNS="{c1, c2}", LISTENERS="{l1}", MAXREQ=2, COS="FALSE", FLUSH="TRUE", ATOMIC="TRUE", DRAINED="TRUE", FRESH="TRUE",
+    base = dict(CONNS="{c1, c2}", LISTENERS="{l1}", MAXREQ=2, COS="FALSE", RMU="FALSE", FLUSH="TRUE", ATOMIC="TRUE", DRAINED="TRUE", FRESH="TRUE",
                 EAGER="FALSE", SPEC="Spec", SYMM="SYMMETRY Symm", EXTRA="INVARIANT InvAnswered\nINVARIANT NoActiveClosed")
     live = dict(base, SPEC="FairSpec", SYMM="", EXTRA=base["EXTRA"] + "\nPROPERTY Terminates")
     runs = []
     if ctx.quick:
         runs.append(dict(base, CONNS="{c1}", FRESH="FALSE"))
+        runs.append(dict(base, CONNS="{c1}", FRESH="FALSE", RMU="TRUE"))
         runs.append(dict(base, COS="TRUE", MAXREQ=1, LISTENERS="{l1, l2}"))
         runs.append(dict(live, CONNS="{c1}"))
     else:
@@ -25,6 +26,7 @@ def run(ctx):
         runs.append(dict(base, LISTENERS="{l1, l2}", FRESH="FALSE"))
         runs.append(dict(base, COS="TRUE", LISTENERS="{l1, l2}", MAXREQ=1))
         runs.append(dict(base, EAGER="TRUE", FRESH="FALSE"))
+        runs.append(dict(base, RMU="TRUE", FRESH="FALSE"))
         runs.append(dict(live, MAXREQ=1))
         runs.append(dict(live, CONNS="{c1}", LISTENERS="{l1, l2}"))
     for c in runs:
